@@ -125,7 +125,7 @@ bytes = { version = "1.4.0", features = ["serde"] }
 serde = { version = "1.0.145", features = ["derive"] }
 serde_json = "1.0.86"
 thiserror = "1.0.47"
-"""
+%(extra)s"""
 
 WS_TOML = """[workspace]
 resolver = "2"
@@ -157,7 +157,8 @@ class CorpusBuildError(Exception):
 class RustCorpus:
     """descs: list of {'name': 'd0', 'file': model, 'text': pdl}"""
 
-    def __init__(self, key, descs, log=None):
+    def __init__(self, key, descs, log=None, derive=False):
+        self.derive = derive   # modules produced by #[pdl_inline] instead of the CLI backend text
         self.key = key
         self.descs = list(descs)
         self.dir = os.path.join(build.WORK, "rs", build._repo_tag(), key)
@@ -190,6 +191,9 @@ class RustCorpus:
                 self.dropped[d["name"]] = {"stage": "gen:rust", "res": _brief(r), "panic": panic_of(r)}
                 continue
             d["rust"] = g["ok"]
+            if self.derive:
+                assert '"#' not in d["text"]
+                d["rust"] = ('#[pdl_derive::pdl_inline(r#"%s"#)]\npub mod inner {}\npub use inner::*;\n' % d["text"])
             live.append(d)
         drv.close()
         self.live = live
@@ -209,7 +213,9 @@ class RustCorpus:
             # the workspace root, so equal names in two workspaces sharing one target dir collide
             build._write_if_changed(os.path.join(bdir, "Cargo.toml"),
                                     LIB_TOML % {"name": bname, "pkg": "%s-%s" % (bname, self.tag),
-                                                "support": support, "repo": os.path.abspath(build.REPO)})
+                                                "support": support, "repo": os.path.abspath(build.REPO),
+                                                "extra": ('pdl-derive = { path = "%s/pdl-derive" }\n'
+                                                          % os.path.abspath(build.REPO)) if self.derive else ""})
             lib = ["#![allow(warnings)]\n"]
             for d in batch:
                 build._write_if_changed(os.path.join(bdir, "src", d["name"] + "_gen.rs"), d["rust"])
@@ -220,7 +226,7 @@ class RustCorpus:
         bdir = os.path.join(self.dir, "harness")
         deps = "".join('%s = { package = "%s-%s", path = "../%s" }\n' % (m, m, self.tag, m) for m in members)
         bin_toml = (LIB_TOML % {"name": "harness", "pkg": "harness-" + self.tag, "support": support,
-                                "repo": os.path.abspath(build.REPO)}).replace(
+                                "repo": os.path.abspath(build.REPO), "extra": ""}).replace(
             '[lib]\nname = "harness"\npath = "src/lib.rs"', '[[bin]]\nname = "harness-%s"\npath = "src/main.rs"' % self.tag)
         build._write_if_changed(os.path.join(bdir, "Cargo.toml"), bin_toml + deps)
         arms = []
